@@ -142,6 +142,10 @@ func NewFakeAuth() *FakeAuth {
 			if hj, ok := w.(http.Hijacker); ok {
 				conn, _, err := hj.Hijack()
 				if err == nil {
+					// a few bytes of a status line, then the connection dies: net/http reports a transport
+					// error and — because bytes did arrive — never retries transparently, whether or not the
+					// connection had been reused (a bare reset is retried only on reused connections)
+					io.WriteString(conn, "HTTP/1.1 ")
 					if tc, ok := conn.(*net.TCPConn); ok {
 						tc.SetLinger(0)
 					}
@@ -154,10 +158,10 @@ func NewFakeAuth() *FakeAuth {
 		w.WriteHeader(ans.Status)
 		io.WriteString(w, ans.Body)
 	}))
-	// One connection per call: whether net/http transparently retries a request whose connection
-	// was reset depends on whether that connection had been reused, which would make "reset" answers
-	// depend on history outside the explored state.
-	f.Server.Config.SetKeepAlivesEnabled(false)
+	// Keep-alive connections are fine: a "reset" answer first writes a few bytes (see above), so
+	// net/http's transparent retry — which depends on whether the connection had been reused, i.e. on
+	// history outside the explored state — never triggers. (One connection per call was tried first; at
+	// ~1000 calls/s per worker it exhausts the loopback ephemeral ports after some minutes.)
 	f.Server.Start()
 	return f
 }
